@@ -87,6 +87,12 @@ def pRatioArg : P RatioArg := do
   | "v" => do let x ← pF64; pure (.value x)
   | "fixed" => pure .fixed
   | "dynamic" => pure .dynamic
+  | "bad" => do
+    let e ← word
+    match e with
+    | "ValueError" => pure (.bad .valueError)
+    | "TypeError" => pure (.bad .typeError)
+    | _ => failure
   | _ => failure
 
 def pOp : P Op := do
